@@ -768,7 +768,7 @@ fn main() {
     let mut g = Global::default();
     for (n, t) in [("flags", Ty::U(32)), ("d_params_flags", Ty::U(32)), ("self_flags", Ty::U(32)), ("self_window_bits_max", Ty::U(8)),
                    ("out_len", Ty::U(64)), ("out_pos", Ty::U(64)), ("slice_len", Ty::U(64)), ("position", Ty::U(64)), ("max_count", Ty::U(64)),
-                   ("in_buf_len", Ty::U(64)), ("out_max", Ty::U(64))] { g.free.insert(n.to_string(), t); }
+                   ("in_buf_len", Ty::U(64)), ("out_max", Ty::U(64)), ("d_params_prev_return_status", Ty::Enum("TDEFLStatus".into())), ("d_params_flush", Ty::Enum("TDEFLFlush".into())), ("flush", Ty::Enum("TDEFLFlush".into()))] { g.free.insert(n.to_string(), t); }
 
     // pass 1: enums (discriminants), const and fn signatures
     let mut per_mod_items: Vec<Vec<&Item>> = vec![];
@@ -880,7 +880,9 @@ fn main() {
         // fragments
         let mut frag = String::new();
         if ns == "InflCore" { fragment_geometry(&g, &fns, spec, &mut frag, &mut errors, &mut manifest, &mut add_manifest); if !frag.is_empty() { defs.push(("Gen.InflCore.geometry_rejects".into(), frag.clone())); } }
-        if ns == "DeflCore" { fragment_routing(&g, &fns, spec, &mut frag, &mut errors, &mut manifest, &mut add_manifest); if !frag.is_empty() { defs.push(("Gen.DeflCore.route".into(), frag.clone())); } }
+        if ns == "DeflCore" { fragment_routing(&g, &fns, spec, &mut frag, &mut errors, &mut manifest, &mut add_manifest); if !frag.is_empty() { defs.push(("Gen.DeflCore.route".into(), frag.clone())); }
+            let mut frag2 = String::new();
+            fragment_guard(&g, &fns, spec, &mut frag2, &mut errors, &mut manifest, &mut add_manifest); if !frag2.is_empty() { defs.push(("Gen.DeflCore.guard_rejects".into(), frag2)); } }
     }
     // order definitions so that every `Gen.…` name is defined before it is used
     let names: Vec<String> = defs.iter().map(|d| d.0.clone()).collect();
@@ -985,6 +987,46 @@ fn fragment_routing(g: &Global, fns: &[FnSrc], spec: &ModSpec, out: &mut String,
     writeln!(out, "-- fragment: engine routing in compress_inner ({}:{}); 0 stored, 1 fast, 2 normal", spec.path, f.span.start().line).unwrap();
     writeln!(out, "def Gen.DeflCore.route (d_params_flags : Int) : Int := Id.run do\n{}\n", body.join("\n")).unwrap();
     add(spec.path, "fragment route", f.span, &text, manifest);
+}
+
+/// The usage guard at the top of `compress_inner`: the two `let`s `prev_ok`, `flush_finish_once`
+/// and the condition of the `if` that returns `BadParam`, as a predicate over
+/// (prev_return_status, previous flush, requested flush).
+fn fragment_guard(g: &Global, fns: &[FnSrc], spec: &ModSpec, out: &mut String, errors: &mut Vec<String>, manifest: &mut String, add: &mut dyn FnMut(&str, &str, Span, &str, &mut String)) {
+    let f = match fns.iter().find(|f| f.key == "compress_inner") { Some(f) => f, None => { errors.push("deflate/core.rs: compress_inner not found".into()); return; } };
+    let mut tr = Tr::new(g, "DeflCore");
+    let mut body = vec![];
+    let mut text = String::new();
+    let mut done = false;
+    for s in &f.block.stmts {
+        match s {
+            Stmt::Local(l) => {
+                if let Pat::Ident(i) = &l.pat {
+                    let n = i.ident.to_string();
+                    if n == "prev_ok" || n == "flush_finish_once" {
+                        text.push_str(&s.to_token_stream().to_string());
+                        if let Err(e) = tr.stmts(std::slice::from_ref(s), &Ty::Bool, 2, &mut body, false) { errors.push(format!("{}: guard fragment: {}", spec.path, e)); return; }
+                    }
+                }
+            }
+            Stmt::Expr(Expr::If(i), _) => {
+                if i.then_branch.to_token_stream().to_string().contains("BadParam") {
+                    text.push_str(&i.cond.to_token_stream().to_string());
+                    match tr.ex(&i.cond, &Ty::Bool) { Ok((c, _)) => { body.push(format!("  return {}", c)); done = true; } Err(e) => { errors.push(format!("{}: guard fragment: {}", spec.path, e)); return; } }
+                    break;
+                }
+            }
+            _ => {}
+        }
+    }
+    if !done { errors.push(format!("{}: guard fragment: the BadParam guard of compress_inner was not found", spec.path)); return; }
+    let free: Vec<String> = tr.free_used.iter().map(|(n, _)| n.clone()).collect();
+    if free != vec!["d_params_prev_return_status".to_string(), "d_params_flush".to_string(), "flush".to_string()] {
+        errors.push(format!("{}: guard fragment: unexpected inputs {:?}", spec.path, free)); return;
+    }
+    writeln!(out, "-- fragment: usage guard of compress_inner ({}:{}); true = BadParam", spec.path, f.span.start().line).unwrap();
+    writeln!(out, "def Gen.DeflCore.guard_rejects (d_params_prev_return_status : Int) (d_params_flush : Int) (flush : Int) : Bool := Id.run do\n{}\n", body.join("\n")).unwrap();
+    add(spec.path, "fragment guard_rejects", f.span, &text, manifest);
 }
 
 #[allow(dead_code)]
